@@ -3,4 +3,6 @@ pub mod c02;
 pub mod c03;
 pub mod c04;
 pub mod c06;
+pub mod c13;
+pub mod c14;
 pub mod common;
